@@ -130,6 +130,9 @@ func runC20(ctx *Ctx) {
 		}
 		gname := strings.Join(names, " || ")
 		deadline := time.Now().Add(100 * time.Second)
+		if !ctx.Thorough {
+			deadline = time.Now().Add(10 * time.Minute) // (a quick group takes seconds; a busy machine must not cut it)
+		}
 		gb := bound
 		if !ctx.Thorough && len(g.idx) == 2 && g.idx[0] != g.idx[1] && family[ops[g.idx[0]].name] != family[ops[g.idx[1]].name] {
 			gb = bound - 1 // quick: a codec against an operation of another family with one preemption less
